@@ -329,6 +329,12 @@ def gen_dict(tier, rng):
         for n in range(1, 7 if tier == "thorough" else 6):
             for t in itertools.product(special[:3], repeat=n):
                 out.append(Case("dict", ty, list(t), "exh"))
+    # more values than the builder's initial index capacity (1024, doubled on demand)
+    for ty, bits in (("i32", 32), ("f64", 64)):
+        for n in ((1024, 1025, 2049, 5000) if tier == "thorough" or ty == "i32" else (1025, 2500)):
+            pool = [rng.getrandbits(bits) for _ in range(rng.choice([3, 40]))]
+            out.append(Case("dict", ty, [rng.choice(pool) for _ in range(n)], "many-values"))
+    out.append(Case("dict", "ba", [rng.choice(WORDS) for _ in range(1500)], "many-values"))
     out.append(Case("dict", "ba", [], "empty"))
     for n in (1, 2, 9, 40, 130):
         out.append(Case("dict", "ba", [rng.choice(WORDS) for _ in range(n)], "ba-words"))
@@ -606,6 +612,50 @@ def check_enc2_c11(rep, tier, rng):
         if b != "SKIP" and a != b:
             rep.tie_broken("enc2 decoder model differs from implementation (%s %s): model %s / impl %s"
                            % (c.fam, c.tag, b[:160], a[:160]), l[:2000])
+
+    # ---- PLAIN through the generic entry point carquet_decode_plain (what the page reader calls): same result
+    gl = [("plain_decg " + l.split(" ", 1)[1], expect_dec(c, nb)) for (c, nb), l in zip(dec_cases, dec_lines)
+          if c.fam == "plain" and (c.tag != "bool-exh" or rng.random() < 0.2)]
+    gl.append(("plain_decg bad 1 0000000000000000", "ERR -1"))      # a physical type that does not exist
+    impl, p1 = run_sharded(drv, [l for l, _ in gl])
+    model, _ = run_sharded(run, [l for l, _ in gl])
+    for pr in p1:
+        rep.violation("enc2: carquet_decode_plain died on carquet's own output (rc=%s): %s" % (pr[1], pr[2][-400:]), _rp("line", pr[3]))
+    for (l, want), a, b in zip(gl, impl, model):
+        rep.count(l)
+        if a != want:
+            rep.violation("enc2 round trip fails through the generic carquet_decode_plain: %s, expected %s" % (a[:160], want[:160]),
+                          _rp("line-expect", l, want, impl=a))
+        if b != "SKIP" and a != b:
+            rep.tie_broken("enc2 model differs on carquet_decode_plain: model %s / impl %s" % (b[:120], a[:120]), l[:2000])
+
+    # ---- the library's own size estimates are upper bounds: *_max_encoded_size >= bytes really appended;
+    #      delta_strings_work_buffer_size is enough work buffer to decode the strings back
+    bl, bm = [], []
+    for c in cases:
+        if c.fam in ("dl", "ds") and c.vals and (c.impl_enc or "").startswith("OK") and (c.tag != "exh" or rng.random() < 0.3):
+            bl.append("str_bounds %s %s" % (c.fam, bas(c.vals)))
+            bm.append(c)
+    big_lines = ["dl_big 1000", "dl_big 8388608", "dl_big 16777216", "dl_big 134217728", "ds_big 16777216", "ds_big2 16777216",
+                 "ds_big2 33554432"]
+    impl, p1 = run_sharded(drv, bl + big_lines)
+    for pr in p1:
+        rep.violation("enc2: size-estimate driver died (rc=%s): %s" % (pr[1], pr[2][-400:]), _rp("line", pr[3]))
+    for l, a, c in zip(bl + big_lines, impl, bm + [None] * len(big_lines)):
+        rep.count(l)
+        t = a.split()
+        bad = None
+        if t[0] != "OK":
+            bad = "the encoder fails: " + a
+        elif int(t[1]) > int(t[2]):
+            bad = "max_encoded_size %s is below the %s bytes really written" % (t[2], t[1])
+        elif c is not None and int(t[1]) != len(unhx(c.impl_enc.split()[1])):
+            bad = "encoded size %s differs from the first encoding (%d bytes)" % (t[1], len(unhx(c.impl_enc.split()[1])))
+        elif c is not None and c.fam == "ds" and (int(t[3]) != sum(len(x) for x in c.vals) or t[4] != "0" or t[5] != "1"):
+            bad = "work_buffer_size %s (sum of lengths %d): decode with exactly that work buffer gives status %s, same values %s" \
+                  % (t[3], sum(len(x) for x in c.vals), t[4], t[5])
+        if bad:
+            rep.violation("enc2: size estimate of %s: %s" % (l.split()[0] + " " + l.split()[1][:20], bad), _rp("bounds", l, impl=a))
 
     # ---- dictionary: decode through the four typed decoders; byte arrays through a PLAIN reading of the dictionary page
     dl, meta = [], []
@@ -934,6 +984,16 @@ def check_enc2_c12(rep, tier, rng):
         rep.violation("enc2: a decoder died on a specification-conformant stream (rc=%s): %s" % (pr[1], pr[2][-500:]), _rp("line", pr[3]))
     for pr in p2:
         rep.tie_broken("enc2 model runner died (rc=%s): %s" % (pr[1], pr[2][-300:]), pr[3])
+    for (c, label, nb), l in list(zip(meta, lines)):
+        if c.fam == "plain" and (c.tag != "bool-exh" or rng.random() < 0.2):
+            lines.append("plain_decg " + l.split(" ", 1)[1])
+            meta.append((c, label + "/generic", nb))
+    if len(lines) > len(impl):
+        i2, p1 = run_sharded(drv, lines[len(impl):])
+        m2, _ = run_sharded(run, lines[len(model):])
+        for pr in p1:
+            rep.violation("enc2: carquet_decode_plain died on a specification-conformant stream: %s" % pr[2][-400:], _rp("line", pr[3]))
+        impl, model = impl + i2, model + m2
     vdist = {}
     for (c, label, nb), l, a, b in zip(meta, lines, impl, model):
         rep.count("c12b " + l, nontrivial=len(c.vals) > 0)
@@ -1004,6 +1064,11 @@ def replay_enc2(j):
         print(err[-1500:])
     if rc != 0 or not out:
         return 1
+    if kind == "bounds":
+        t = got.split()
+        ok = t[0] == "OK" and int(t[1]) <= int(t[2]) and (len(t) < 6 or (t[4] == "0" and t[5] == "1"))
+        print("size estimates hold:", ok)
+        return 0 if ok else 1
     if kind == "roundtrip" and j.get("encode"):
         # redo the whole round trip on the current tree: encode, then decode the bytes just produced
         eo, rc, err = vlib.run_lines(drv, [j["encode"]])
